@@ -1260,6 +1260,12 @@ class ObjectDomain(LazyGenerators, EffectDomain):
     # Calling a value that evaluated to "unknown" is no verdict (exit 2), not a call that does nothing.
     strict_calls = True
 
+    def _unknown_arguments(self, call, st, fr):
+        """A call of code this model would follow, whose argument list (a `*x` / `**x` of unknown content) it cannot determine."""
+        if self.strict_calls:
+            raise Undecided(f"the arguments of the call at line {getattr(call, 'lineno', '?')} of {fr.name} could not be determined (a * / ** argument of unknown content)")
+        return val(TOP, st)
+
     def _param_names(self, fn, fr):
         """Positional parameter names of an abstract callable (without self), or None."""
         tag = fn[0] if isinstance(fn, tuple) and fn else None
@@ -1469,6 +1475,20 @@ class ObjectDomain(LazyGenerators, EffectDomain):
                     out.extend(interp.eval(node, r.state, fr))
             if decided:
                 return out
+        if d == "getattr" and len(call.args) == 2 and not call.keywords and not st.has(fr.local("getattr")) and not any(isinstance(a, ast.Starred) for a in call.args):
+            # getattr(<whatever the expression evaluates to>, <a name that evaluates to a constant>): the attribute of that value
+            out, ok = [], True
+            for r in interp.eval_list(list(call.args), st, fr):
+                if r.kind == "exc":
+                    out.append(r)
+                    continue
+                got = self._attr_builtin(interp, "getattr", list(r.value), r.state, fr)
+                if got is None:
+                    ok = False
+                    break
+                out.extend(got)
+            if ok and out:
+                return out
         if d == "property" and 1 <= len(call.args) + len(call.keywords) <= 2 and all(k.arg in ("fget", "fset") for k in call.keywords) and not st.has(fr.local("property")):
             # property(getter[, setter]) as an object: a class attribute holding it is looked up / assigned through these functions
             out = []
@@ -1663,7 +1683,8 @@ class ObjectDomain(LazyGenerators, EffectDomain):
                     out.append(val(TOP, r.state))
             return out
         if d == "staticmethod" and len(call.args) == 1 and not call.keywords:
-            return interp.eval(call.args[0], st, fr)   # staticmethod(f): looked up on the class or an instance it is f itself
+            # staticmethod(f): looked up on the class or an instance it is f itself, never bound to the instance
+            return [r if r.kind == "exc" or not (isinstance(r.value, tuple) and r.value[:1] == ("func",)) else val(("partial", r.value, (), ()), r.state) for r in interp.eval(call.args[0], st, fr)]
         if d == "object" and not call.args and not call.keywords and not st.has(fr.local("object")):
             n = st.get("ev.inst", 0)
             return [val(("sym", f"<object #{n}>"), st.set("ev.inst", n + 1))]   # a fresh object: equal and identical to itself only
@@ -1792,7 +1813,7 @@ class ObjectDomain(LazyGenerators, EffectDomain):
                                 if bad is not None:
                                     out.append(bad)
                                 elif pos is None:
-                                    out.append(val(TOP, s2))
+                                    out.append(self._unknown_arguments(call, s2, fr))
                                 else:
                                     out.extend(self.apply(interp, ("method", f_.attr), pos, kw, s2, fr))
                         else:
@@ -1807,7 +1828,7 @@ class ObjectDomain(LazyGenerators, EffectDomain):
                             if bad is not None:
                                 out.append(bad)
                             elif pos is None:
-                                out.append(val(TOP, s2))
+                                out.append(self._unknown_arguments(call, s2, fr))
                             elif is_exitstack(r.value):
                                 out.extend(self._exitstack_method(interp, r.value, f_.attr, pos, kw, s2, fr))
                             else:
@@ -1834,7 +1855,7 @@ class ObjectDomain(LazyGenerators, EffectDomain):
                         if bad is not None:
                             out.append(bad)
                         elif pos is None:
-                            out.append(val(TOP, s2))
+                            out.append(self._unknown_arguments(call, s2, fr))
                         elif "classmethod" in decos:
                             argvals = self._bind(mf, pos, kw, True)
                             if argvals is None:
@@ -1870,7 +1891,7 @@ class ObjectDomain(LazyGenerators, EffectDomain):
                     if bad is not None:
                         out.append(bad)
                     elif pos is None:
-                        out.append(val(TOP, s2))
+                        out.append(self._unknown_arguments(call, s2, fr))
                     else:
                         out.extend(self.instantiate(interp, ci, pos, kw, s2, fr))
                 return out
@@ -1884,7 +1905,7 @@ class ObjectDomain(LazyGenerators, EffectDomain):
                     if bad is not None:
                         out.append(bad)
                     elif pos is None:
-                        out.append(val(TOP, s2))
+                        out.append(self._unknown_arguments(call, s2, fr))
                     else:
                         out.extend(self.apply(interp, fnv, pos, kw, s2, fr))
                 return out
@@ -1900,7 +1921,7 @@ class ObjectDomain(LazyGenerators, EffectDomain):
                         if bad is not None:
                             out.append(bad)
                         elif pos is None:
-                            out.append(val(TOP, s2))
+                            out.append(self._unknown_arguments(call, s2, fr))
                         else:
                             out.extend(self.apply(interp, held, pos, kw, s2, fr))
                     return out
@@ -1917,7 +1938,7 @@ class ObjectDomain(LazyGenerators, EffectDomain):
                             if bad is not None:
                                 out.append(bad)
                             elif pos is None:
-                                out.append(val(TOP, s2))
+                                out.append(self._unknown_arguments(call, s2, fr))
                             else:
                                 out.extend(self.apply(interp, g.value, pos, kw, s2, fr))
                     return out
@@ -1940,7 +1961,7 @@ class ObjectDomain(LazyGenerators, EffectDomain):
                             if bad is not None:
                                 out.append(bad)
                             elif pos is None:
-                                out.append(val(TOP, s2))
+                                out.append(self._unknown_arguments(call, s2, fr))
                             else:
                                 out.extend(self.apply(interp, r.value, pos, kw, s2, fr))
                     return out
@@ -2226,7 +2247,7 @@ class ObjectDomain(LazyGenerators, EffectDomain):
             if bad is not None:
                 out.append(bad)
             elif pos is None:
-                out.append(val(TOP, s2))
+                out.append(self._unknown_arguments(call, s2, fr))
             elif is_exitstack(receiver):
                 out.extend(self._exitstack_method(interp, receiver, name, pos, kw, s2, fr))
             elif receiver == ("self",):
